@@ -39,7 +39,7 @@ struct TimerRec
   std::vector<CancelRec> cancels;
   int svc = 0;
 };
-enum OpKind { O_SCHED, O_PERIODIC, O_CANCEL, O_RESCHED, O_SLEEP };
+enum OpKind { O_SCHED, O_PERIODIC, O_CANCEL, O_RESCHED, O_SLEEP, O_BURST };
 struct Op { int kind; int timer; uint64_t delay_ns; int target; uint64_t gap_ns; uint32_t handler_us; int action; };
 
 struct World
@@ -53,6 +53,8 @@ struct World
   uint64_t term_inv_st = 0, term_ret_st = 0, term_inv_t = 0;
   std::atomic<bool> terminated{false};
   std::atomic<int> handlersOpen{0};
+  std::atomic<int> openPerSvc[4] = {{0}, {0}, {0}, {0}};
+  uint64_t drain_ret_st[4] = {0, 0, 0, 0}; // stamp at which a SUCCESSFUL drain() of service i returned
 };
 World* W;
 
@@ -101,11 +103,13 @@ void on_fire(TimerRec* r)
   World& w = *W;
   Fire f{sim::now(), sim::stamp(), 0};
   w.handlersOpen.fetch_add(1);
+  w.openPerSvc[r->svc & 3].fetch_add(1);
   if (w.terminated.load()) sim::fail("timer-after-stop", "handler of timer %d started after stop()/drain() had returned", r->idx);
   if (r->handler_us) std::this_thread::sleep_for(std::chrono::microseconds(r->handler_us));
   else sim::point(0xc08);
   if (r->in_handler_action == 1 && r->idx + 1 < (int)w.timers.size()) cancel_timer(w.timers[r->idx + 1].get(), false, 0);
   w.handlersOpen.fetch_sub(1);
+  w.openPerSvc[r->svc & 3].fetch_sub(1);
   f.st_exit = sim::stamp();
   std::lock_guard<std::mutex> g(r->mx);
   r->fires.push_back(f);
@@ -167,6 +171,15 @@ extern "C" void harness_run()
       };
       o.delay_ns = draw_delay();
       if (o.kind == O_PERIODIC) o.delay_ns = unit * (1 + sim::draw(5));
+      if (o.kind == O_SCHED && sim::draw(6) == 0)
+      {
+        // a burst: 3-6 one-shot timers with the same delay, scheduled back to back (they are collected as one batch)
+        o.kind = O_BURST;
+        o.target = 3 + (int)sim::draw(4);
+        o.timer = ntimers;
+        ntimers += o.target;
+      }
+      else
       if (o.kind == O_SCHED || o.kind == O_PERIODIC) o.timer = ntimers++;
       else o.target = (int)sim::draw(ntimers ? ntimers : 1);
       static const uint64_t gaps[] = {0, 0, 1, 3, 9};
@@ -190,7 +203,20 @@ extern "C" void harness_run()
     int t = 0;
     for (int a = 0; a < nact; a++)
       for (auto& o : plan[a])
-        if (o.kind == O_SCHED || o.kind == O_PERIODIC)
+        if (o.kind == O_BURST)
+        {
+          for (int b = 0; b < o.target; b++)
+          {
+            TimerRec* r = w.timers[o.timer + b].get();
+            r->periodic = false;
+            r->delay_ns = wheel ? (o.delay_ns / 1000000ull) * 1000000ull : o.delay_ns;
+            r->handler_us = o.handler_us ? o.handler_us : 100;
+            r->in_handler_action = 0;
+            r->svc = nsvc > 1 ? (t % nsvc) : 0;
+          }
+          t++;
+        }
+        else if (o.kind == O_SCHED || o.kind == O_PERIODIC)
         {
           TimerRec* r = w.timers[o.timer].get();
           r->periodic = o.kind == O_PERIODIC;
@@ -212,6 +238,7 @@ extern "C" void harness_run()
       switch (o.kind)
       {
       case O_SCHED: snprintf(b, sizeof b, " sched#%d(%.2fu)", o.timer, (double)o.delay_ns / unit); break;
+      case O_BURST: snprintf(b, sizeof b, " burst#%d..%d(%.2fu)", o.timer, o.timer + o.target - 1, (double)o.delay_ns / unit); break;
       case O_PERIODIC: snprintf(b, sizeof b, " periodic#%d(%.2fu)", o.timer, (double)o.delay_ns / unit); break;
       case O_CANCEL: snprintf(b, sizeof b, " cancel#%d", o.target); break;
       case O_RESCHED: snprintf(b, sizeof b, " resched#%d(%.2fu)", o.target, (double)o.delay_ns / unit); break;
@@ -247,6 +274,7 @@ extern "C" void harness_run()
         {
         case O_SCHED:
         case O_PERIODIC: schedule_timer(w.timers[o.timer].get()); break;
+        case O_BURST: for (int b = 0; b < o.target; b++) schedule_timer(w.timers[o.timer + b].get()); break;
         case O_CANCEL: cancel_timer(w.timers[o.target].get(), false, 0); break;
         case O_RESCHED: cancel_timer(w.timers[o.target].get(), true, (o.delay_ns / 1000000ull) * 1000000ull); break;
         default: break;
@@ -260,15 +288,36 @@ extern "C" void harness_run()
     w.term_inv_st = sim::stamp();
     if (w.wheel)
     {
-      if (drainFirst) w.wheel->drain(milliseconds(drainTimeoutMs));
+      if (drainFirst)
+      {
+        auto ds = w.wheel->drain(milliseconds(drainTimeoutMs));
+        if (ds.remaining == 0)
+        {
+          w.drain_ret_st[0] = sim::stamp();
+          if (w.handlersOpen.load() != 0) sim::fail("timer-running-after-drain", "%d handler(s) still running when the wheel's drain() returned", w.handlersOpen.load());
+        }
+      }
       else w.wheel->stop();
     }
     else
-      for (auto& s : w.svcs)
+    {
+      for (size_t i = 0; i < w.svcs.size(); i++)
       {
-        if (drainFirst) s->drain(drainTimeoutMs);
-        s->stop();
+        auto& s = w.svcs[i];
+        if (drainFirst)
+        {
+          auto dr = s->drain(drainTimeoutMs);
+          if (dr.success)
+          {
+            // "after drain returns no handler is running or starts later"
+            w.drain_ret_st[i & 3] = sim::stamp();
+            int open = w.openPerSvc[i & 3].load();
+            if (open != 0) sim::fail("timer-running-after-drain", "%d handler(s) of the service still running when drain() returned success", open);
+          }
+        }
       }
+      for (auto& s : w.svcs) s->stop();
+    }
     w.term_ret_st = sim::stamp();
     if (w.handlersOpen.load() != 0) sim::fail("timer-running-after-stop", "%d handler(s) still running when stop()/drain() returned", w.handlersOpen.load());
     w.terminated.store(true);
@@ -377,6 +426,9 @@ extern "C" void harness_run()
           for (auto& c2 : r.cancels) if (c2.resched && c2.ok && c2.sp.inv > c.sp.inv && c2.sp.inv < f.st_entry && f.t_entry + tol >= c2.t_inv + c2.new_delay_ns) explained = true;
           if (!explained) sim::fail("timer-fired-after-reschedule", "timer %d: old schedule fired after reschedule() returned true", r.idx);
         }
+      if (w.drain_ret_st[r.svc & 3] && f.st_entry > w.drain_ret_st[r.svc & 3])
+        sim::fail("timer-after-drain", "timer %d handler started (stamp %llu) after drain() had returned success (stamp %llu)", r.idx, (unsigned long long)f.st_entry,
+                  (unsigned long long)w.drain_ret_st[r.svc & 3]);
       if (w.term_ret_st && f.st_entry > w.term_ret_st) sim::fail("timer-after-stop", "timer %d handler started after stop()/drain() returned", r.idx);
       if (w.term_ret_st && f.st_entry < w.term_ret_st && f.st_exit > w.term_ret_st) sim::fail("timer-running-after-stop", "timer %d handler was running when stop()/drain() returned", r.idx);
     }
